@@ -1,4 +1,5 @@
 import Driver.ArenaDrv
+import Driver.RustDrv
 /-
   Line-protocol driver.  stdin: one operation per line, first word selects the
   machine (`A` arena, `R` Rust map, `P` Python map, `C` C extension);
@@ -12,16 +13,18 @@ open BPT
 structure St where
   arenaLimit : Nat := nullId
   arena : Option AState := some Arena.empty
+  rust : RSt := {}
 
 def step (st : St) (line : String) : St × String :=
   match words line with
   | [] => (st, "")
-  | "case" :: rest => ({ st with arena := some Arena.empty }, "case " ++ " ".intercalate rest)
+  | "case" :: rest => ({ st with arena := some Arena.empty, rust := {} }, "case " ++ " ".intercalate rest)
   | ["cfg", "arena-limit", n] =>
     match n.toNat? with
     | some n => ({ st with arenaLimit := n }, "ok")
     | none => (st, "bad-op")
   | "cfg" :: _ => (st, "ok")
+  | "R" :: ws => let r := rustStep st.rust ws; ({ st with rust := r.1 }, r.2)
   | "A" :: ws =>
     match st.arena with
     | none => (st, "dead")
